@@ -100,9 +100,9 @@ def build_ref_objects(name, sources, defines=(), sanitize=False):
     return pmap(one, sources)
 
 # ----------------------------------------------------------------------------- CBMC
-CBMC_FLAGS = ['--unwinding-assertions', '--pointer-overflow-check', '--signed-overflow-check', '--undefined-shift-check',
+CBMC_FLAGS = ['--unwinding-assertions', '--signed-overflow-check', '--undefined-shift-check',
               '--div-by-zero-check', '--drop-unused-functions', '--no-malloc-may-fail', '--no-standard-checks',
-              '--bounds-check', '--pointer-check', '--pointer-primitive-check']
+              '--bounds-check', '--pointer-check', '--pointer-primitive-check', '--object-bits', '12']
 
 def goto_cc(out, sources, defines=(), includes=()):
     cmd = ['goto-cc', '-o', out] + ['-D' + x for x in defines] + ['-I' + x for x in includes] + ['-I' + os.path.join(VERIF, 'rt')] + list(sources)
@@ -151,3 +151,49 @@ def write_evidence(pid, tier, coverage, assumptions, wall, violations, level='mo
     with open(os.path.join(VERIF, 'evidence', pid + '.json'), 'w') as f:
         json.dump(ev, f, indent=1, default=str)
     return ev
+
+# ----------------------------------------------------------------------------- CBMC instance grids
+def list_loops(binary):
+    r = run(['cbmc', binary, '--function', 'harness', '--show-loops', '--drop-unused-functions'], check=False)
+    return re.findall(r'^Loop (\S+):\n  file \S+ line \d+ function (\S+)', r['out'], re.M)
+
+class GotoLib:
+    """generated C + runtime + models compiled once to goto objects; harnesses are linked per instance"""
+    def __init__(self, name, csources, defines, includes):
+        self.d = scratch(); self.defines = list(defines); self.includes = list(includes) + [self.d, os.path.join(VERIF, 'harness'), os.path.join(VERIF, 'models')]
+        self.objs = []
+        def one(src):
+            out = os.path.join(self.d, '%s.%s.gb' % (name, os.path.basename(src)))
+            run(['goto-cc', '-c'] + ['-D' + x for x in self.defines] + ['-I' + x for x in self.includes] + ['-I' + os.path.join(VERIF, 'rt'), src, '-o', out])
+            return out
+        self.objs = pmap(one, csources)
+    def link(self, out, harness, defines):
+        run(['goto-cc'] + ['-D' + x for x in self.defines + list(defines)] + ['-I' + x for x in self.includes] +
+            ['-I' + os.path.join(VERIF, 'rt'), harness] + self.objs + ['-o', out])
+        return out
+
+def run_instance(lib, harness, name, defines, unwind, ir_unwind=None, timeout=300, extra=(), want_trace=False):
+    """link + cbmc one instance; loops inside ir_* functions get ir_unwind, everything else `unwind`"""
+    out = os.path.join(lib.d, name + '.gb')
+    lib.link(out, harness, defines)
+    uset = []
+    if ir_unwind is not None:
+        for lid, fn in list_loops(out):
+            if fn.startswith('ir_'): uset.append('%s:%d' % (lid, ir_unwind))
+    r = cbmc(out, function='harness', unwind=unwind, unwindset=uset, timeout=timeout, extra=extra)
+    r['name'] = name; r['defines'] = list(defines); r['binary'] = out; r['unwindset'] = uset; r['unwind'] = unwind
+    return r
+
+def cbmc_trace_inputs(binary, unwind, unwindset, prop, names, timeout=300, extra=()):
+    """re-run with --trace for one failed property; return the last value assigned to each element of the named
+    harness variables (values are read from the bit pattern CBMC prints, which is unambiguous)"""
+    cmd = ['cbmc', binary] + CBMC_FLAGS + ['--function', 'harness', '--unwind', str(unwind), '--trace'] + list(extra)
+    # unwinding / recursion assertions cannot be selected with --property: take the first failure instead
+    cmd += ['--stop-on-fail'] if ('.unwind.' in prop or '.recursion' in prop) else ['--property', prop]
+    if unwindset: cmd += ['--unwindset', ','.join(unwindset)]
+    r = run(cmd, timeout=timeout, check=False)
+    vals = {}
+    for m in re.finditer(r'^  ([A-Za-z_][A-Za-z_0-9]*)((?:\[\d+[a-z]*\])*)=.*\(([01 ]+)\)$', r['out'], re.M):
+        if m.group(1) in names:
+            vals[m.group(1) + m.group(2)] = int(m.group(3).replace(' ', ''), 2)
+    return vals
